@@ -10,7 +10,10 @@ trap 'rm -rf "$D"' EXIT
 mkdir -p "$D/repo/src" "$D/ev"
 cp /repo/src/confuse.c /repo/src/confuse.h /repo/src/compat.h /repo/src/lexer.l /repo/src/Makefile.am "$D/repo/src/"
 cp /repo/config.h "$D/repo/" 2>/dev/null || cp "$VERIF/support/config.h" "$D/repo/"
-if [ "$1" = "-e" ]; then
+if [ "$1" = "-py" ]; then
+  (cd "$D/repo" && python3 "$2") || { echo "python edit failed"; exit 2; }
+  shift 2
+elif [ "$1" = "-e" ]; then
   sed -i -E "$2" "$D/repo/src/$3" || exit 2
   shift 3
 else
